@@ -35,8 +35,9 @@ from typing import Any
 from hypothesis import strategies as st
 
 XML_NS = 'http://www.w3.org/XML/1998/namespace'
-PREFIX_URI = {'': 'urn:d', 'p': 'urn:p', 'q': 'urn:q', 's': 'urn:p'}
-CANON_PREFIX = {'urn:d': '', 'urn:p': 'p', 'urn:q': 'q'}
+# 'r' -> urn:pp: a URI of which urn:p is a proper string prefix (only generated with tree_specs(prefix_uris=True))
+PREFIX_URI = {'': 'urn:d', 'p': 'urn:p', 'q': 'urn:q', 's': 'urn:p', 'r': 'urn:pp'}
+CANON_PREFIX = {'urn:d': '', 'urn:p': 'p', 'urn:q': 'q', 'urn:pp': 'r'}
 # what a parser / lxml.xpath gets to resolve prefixes used in generated paths (no default namespace)
 PATH_NAMESPACES = {'p': 'urn:p', 'q': 'urn:q'}
 
@@ -288,17 +289,21 @@ def _misc(pi_targets, with_tail=True):
 _ATTR_NS = (None, None, None, 'urn:p', 'urn:q', XML_NS)
 _ELEM_NS = (None, None, None, 'urn:d', 'urn:p', 'urn:q')
 _DECLS = ((), (), (), ('',), ('p',), ('q',), ('s',), ('p', 'q'), ('', 'p'), ('', 'p', 'q', 's'), ('s', 'p'))
+_ATTR_NS_PP = _ATTR_NS + ('urn:pp', 'urn:pp', 'urn:p')
+_ELEM_NS_PP = _ELEM_NS + ('urn:pp', 'urn:pp', 'urn:p')
+_DECLS_PP = _DECLS + (('r',), ('p', 'r'), ('r', 'q'))
 
 
 @st.composite
 def tree_specs(draw, max_elems=12, max_depth=4, max_attrs=3, ns=True, doc_misc=True,
-               pi_targets=PI_TARGETS, misc_weight=3, elem_locals=ELEM_LOCALS, min_elems=1):
+               pi_targets=PI_TARGETS, misc_weight=3, elem_locals=ELEM_LOCALS, min_elems=1, prefix_uris=False):
     """Normalised TreeSpec.  Small name pools on purpose (nested/sibling same names are the norm)."""
     budget = [draw(st.integers(min(min_elems, max_elems), max_elems)) - 1]
     misc = _misc(pi_targets)
-    elem_ns = st.sampled_from(_ELEM_NS) if ns else st.none()
-    attr_ns = st.sampled_from(_ATTR_NS) if ns else st.none()
-    decls = st.sampled_from(_DECLS) if ns else st.just(())
+    # prefix_uris: also names in urn:pp, so that urn:p is a proper string prefix of another namespace URI in the document
+    elem_ns = st.sampled_from(_ELEM_NS_PP if prefix_uris else _ELEM_NS) if ns else st.none()
+    attr_ns = st.sampled_from(_ATTR_NS_PP if prefix_uris else _ATTR_NS) if ns else st.none()
+    decls = st.sampled_from(_DECLS_PP if prefix_uris else _DECLS) if ns else st.just(())
     attr = st.tuples(attr_ns, st.sampled_from(ATTR_LOCALS), st.sampled_from(ATTR_VALUES)).map(list)
 
     def elem(depth):
